@@ -3,17 +3,18 @@
 
   `safeCheck : Array VM.Instr → Bool` (defined at the end of Model/SafeVM2.lean: this layer AND the
   kind/frame layer there) is an abstract interpretation of a code array.  This layer INFERS an
-  annotation (per pc: the number of data-stack entries the current function activation owns at
-  that pc) by forward propagation from the function entries, and then VERIFIES the annotation
-  locally: every successor of every annotated pc — fall-through, jump target, fork target reached
-  when the fork is backtracked into — carries exactly the height the instruction produces.  Only the
+  annotation (per pc: a lower bound on the number of data-stack entries the current function
+  activation owns at that pc, whether a fork is surely pending, the number of open `pathbegin`s) by
+  forward propagation from the function entries, and then VERIFIES the annotation locally: every
+  successor of every annotated pc — fall-through, jump target, fork target reached when the fork is
+  backtracked into — is annotated with no more than the instruction produces.  Only the
   verifier matters for soundness (Proofs/SafeVM*.lean): `verify sh n ann = true` for SOME `ann`
   implies that no run from `execute`'s initial state reaches the covered panic sites.
 
   The checker never looks at constants, so it is defined on `Shape` (an instruction without its
   JSON operand).  `shapeV` reads the same shape off the DUMPED instruction syntax (`Opt.Instr`, what
   `VerifCodes` prints and the C04 driver parses), `viewS` is the dump of an interpreter instruction,
-  and `shapeV (viewS i) = shape i` (Proofs/SafeVMView.lean), so the check that the `safe` stream of
+  and `shapeV (viewS i) = shape i` (Proofs/SafeVMDump.lean), so the check that the `safe` stream of
   the C04 check runs on every real program IS the hypothesis of the theorem.
 -/
 import Gojq.Model.VM
